@@ -4,6 +4,7 @@
 //   S <bits> <yield-permille> <seed> | <op>... | <op>... | ...
 //       one '|' section per thread; ops:  F,k0,k1  find   I,k0,k1,w...  insert
 //       C  clear()   X,k0,k1  clear(key)     (hex 64-bit patterns)
+//       V  save(stream)   L,<seal>,k0,k1,w...  load(stream with that seal and one record)
 //       The H3 scheduling points (vita::verif::sched_point) record the order
 //       in which the threads pass them and, with the given probability, yield
 //       or sleep a little there (seeded), so the critical sections interleave.
@@ -163,6 +164,22 @@ static void stress(const std::vector<std::string> &sections, std::ostream &out)
         case 'I': c.insert(hash_t(unhex(p[1]), unhex(p[2])), parse_fit(p, 3)); break;
         case 'C': c.clear(); break;
         case 'X': c.clear(hash_t(unhex(p[1]), unhex(p[2]))); break;
+        case 'V':
+        {
+          std::ostringstream o;
+          c.save(o);
+          break;
+        }
+        case 'L':   // L,<seal>,k0,k1,w...  : load a stream holding that seal and one record
+        {
+          std::ostringstream o;
+          o << std::stoul(p[1]) << " \n1\n";
+          hash_t(unhex(p[2]), unhex(p[3])).save(o);
+          parse_fit(p, 4).save(o);
+          std::istringstream in(o.str());
+          c.load(in);
+          break;
+        }
         default: break;
         }
         maybe_yield();
